@@ -14,8 +14,9 @@ STEP = z3.Function("slice_step", z3.IntSort(), z3.IntSort())
 WID = z3.Function("slice_width", z3.IntSort(), z3.IntSort())
 
 SCHEMA_EXTRA = {"signal": "str"}
-ASSUMPTIONS = ["a Slice's parent and index do not change between two reads of its top/bot/step/width (they are read "
-               "through one cached SliceInner)"]
+ASSUMPTIONS = ["a Slice's parent, index and parent width do not change between the reads of top/bot/step/width inside ONE "
+               "verified function (each read resolves the slice anew; the ghost numbers TOP/BOT/STEP/WID stand for the "
+               "values in that function's entry state)"]
 
 
 def inner_rel(st, slize_z, top, bot, step, width):
@@ -34,16 +35,10 @@ def inner_rel(st, slize_z, top, bot, step, width):
 
 
 def cache_coherent(st, slize_z):
-    """data-structure invariant of Slice: a cached _inner holds exactly the slice's resolved numbers"""
-    inner = st.heap.get("_inner", slize_z)
-    g = lambda f: st.heap.get(f, inner)
-    z = slize_z
-    try:
-        _, rel = inner_rel(st, z, TOP(z), BOT(z), STEP(z), WID(z))
-    except Unsupported:
-        rel = True
-    return z3.Implies(inner != NULL, z3.And(g("top") == TOP(z), g("bot") == BOT(z), g("step") == STEP(z),
-                                            g("width") == WID(z), rel))
+    """Slices keep no memo of their resolved numbers (since the repair recorded in known_findings.jsonl: a memo went
+    stale when the parent was resized): there is no cache invariant left to state.  Kept as the place where one would
+    go; code that reads a `_inner` slot again finds an arbitrary object there and fails its postcondition."""
+    return z3.BoolVal(True)
 
 
 def mk_slice(eng, st, index, parent_classes=(Signal,)):
@@ -69,7 +64,7 @@ def index_scenarios(steps=(None, 1, -1, 2, -3)):
 
 
 class GetInner(Contract):
-    """_get_inner(slice): returns the slice's SliceInner, computing and caching it on first use."""
+    """_get_inner(slice): returns the slice's SliceInner, computed from the slice and its parent's present width."""
     key = "hdl21.slice:_get_inner"
     props = ("C03", "C01")
     pure = False
@@ -94,8 +89,7 @@ class GetInner(Contract):
         z = a.slice.z
         g = lambda f: st.heap.get(f, res.z)
         sp, rel = inner_rel(st0, z, TOP(z), BOT(z), STEP(z), WID(z))
-        return z3.And(g("top") == TOP(z), g("bot") == BOT(z), g("step") == STEP(z), g("width") == WID(z), rel,
-                      st.heap.get("_inner", z) == res.z, cache_coherent(st, z))
+        return z3.And(g("top") == TOP(z), g("bot") == BOT(z), g("step") == STEP(z), g("width") == WID(z), rel)
     posts = property(lambda self: [("inner", self.p_rel)])
 
     def _bad(self, eng, st0, a):
